@@ -275,7 +275,7 @@ pub fn alphabet_a() -> Vec<char> {
         v.push(f);
     }
     // text
-    for f in ['x', '\u{e9}', '\u{30a2}', '\u{308}', '\u{1f600}'] {
+    for f in ['x', '\u{e9}', '\u{30a2}', '\u{308}', '\u{1f600}', '\u{feff}'] {
         v.push(f);
     }
     v.sort();
@@ -991,6 +991,29 @@ pub fn c19(c: &Collector, g: &mut Guard) {
         |c, t, local| {
             local.count("odd_payload_chars");
             crate::judge::refine_all(c, "C19", "E1.osc-odd-chars", t, local);
+        },
+    );
+    // a feed() boundary right before (and right after) an unusual payload character
+    crate::explore::sweep(
+        c,
+        &hbase,
+        |_| {
+            let mut v = Vec::new();
+            for ch in ['\u{feff}', '\u{fffe}', '\u{fffd}', '\u{200b}', '\u{301}', '\u{e9}', '\u{30a2}', '\u{1f600}', '\u{2028}', '\u{85}', ' ', ';', '\\'] {
+                for code in ["0", "2"] {
+                    v.push(Op::Feed(vec![format!("\x1b]{};a", code), format!("{}b\x07x", ch)], true));
+                    v.push(Op::Feed(vec![format!("\x1b]{};a{}", code, ch), "b\x07x".to_string()], true));
+                    v.push(Op::Feed(vec![format!("\x1b]{};", code), format!("{}\x07x", ch)], true));
+                    let b1 = format!("\x1b]{};a", code).into_bytes();
+                    let b2 = format!("{}b\x1b\\x", ch).into_bytes();
+                    v.push(Op::FeedBytes(vec![b1, b2], true));
+                }
+            }
+            v
+        },
+        |c, t, local| {
+            local.count("cut_before_odd_char");
+            crate::judge::refine_all(c, "C19", "E1.osc-cut-before-char", t, local);
         },
     );
     // long titles (and long everything else around them)
@@ -1758,6 +1781,8 @@ pub fn macro_alphabet() -> Vec<&'static str> {
         "\x1b[M", "\x1b[2;3r", "\x1b[r", "\x1b[?6h", "\x1b[?7l", "\x1b[4h", "\x1b[20h", "\x1b[?5h", "\x1b[1;31;44m",
         "\x1b[38;5;196m", "\x1b[m", "\x1b]0;t\x07", "\x1b]2;u\x1b\\", "\x1b[3g", "\x1b[?25l", "\x1b(0", "\x0e", "\u{9b}5C",
         "\x1b[?3h", "\x1b%G", "\x1b[5$p", "\x1b[1;\n2H", "\x1b%@", "\x1b%8", "\u{e9}", "\x1b)U",
+        // a zero-width no-break space (= byte order mark) in the middle of the stream is a character
+        "\x1b]2;a\u{feff}b\x07",
     ]
 }
 
